@@ -185,6 +185,14 @@ func RunC05(c *core.Ctx) {
 		"round-trips, anything else is rejected or yields the identical plaintext, no panic; forged COSE_Mac0 tag items (every byte flipped, every truncation, " +
 		"extensions, other key/data, non-byte-strings) on genuine messages between two real sessions in both directions are refused. non-trivial = wire parsed as a tag; distinct = distinct case line"
 	c.Trivial = func(o core.Obs) bool { return false }
+	c.Rep.Rule += kxRule
+	if kxOnly() { // development aid: the tunnel-key cases of tunnel_keys.go alone
+		runC05TunnelKeys(c)
+		registerServerKinds(c)
+		runC05KeylessProtocol(c)
+		closeSrvEnvs()
+		return
+	}
 	suites := allSuites()
 	sizes := []int{1, 14, 15, 16, 17, 31, 32, 33, 100, 1300}
 	if !c.Quick() {
@@ -397,6 +405,7 @@ func RunC05(c *core.Ctx) {
 	}
 	// forged COSE_Mac0 tags on genuine messages between two real sessions, both directions (mac0_more.go)
 	runMac0Verify(c, true)
+	runC05TunnelKeys(c) // tunnel_keys.go: independent derivation, eavesdropper, sessions without keys
 	runC05Protocol(c)
 	runC05Device(c)
 }
